@@ -49,14 +49,12 @@ def has_noninvolutive_choice(tree):
 
 
 def ref_to_choice(mod, tn):
-    """the definition is a (chain of) plain type reference(s) ending in a CHOICE"""
+    """the definition is a (chain of) type reference(s), tagged or not, ending in a CHOICE"""
     env = dict(mod["defs"])
     t = env[tn]
     if t is None or t["k"] != "ref":
         return False
-    while t["k"] == "ref":
-        if t.get("tag"):
-            return False
+    while t["k"] == "ref":       # tagged or not: a tag does not matter to PER
         t = env[t["ref"]]
     return t["k"] == "choice"
 
